@@ -1262,6 +1262,7 @@ class RewriteAtQuery(NodeTransformer):
         """
         if (
             not self.replaced
+            and not isinstance(node, (Constant, Str))
             and hasattr(node, "_location")
             and node._location == self.search
         ):
